@@ -342,8 +342,10 @@ def main():
             # "C:<exception>" (anything else) or [input, output name, dry run, dump kinds, dump prefix, collapsed range length, flag mask]
             outl = []
             real_stdout = sys.stdout
+            real_stdin = sys.stdin
             for k, argv in enumerate(job["argvs"]):
                 sys.stdout = io.StringIO()
+                sys.stdin = io.StringIO()         # help / version call exit(), which closes sys.stdin: not the job pipe
                 try:
                     r = nmfu.ProgramData.load_commandline_flags(list(argv))
                     mask = 0
@@ -360,6 +362,7 @@ def main():
                     outl.append("C:" + type(e).__name__ + ": " + str(e)[:100])
                 finally:
                     sys.stdout = real_stdout
+                    sys.stdin = real_stdin
             res = {"id": job.get("id"), "results": outl}
         elif job.get("cmd") == "flags":
             # pure flag resolution (C19): args without input file are passed verbatim
